@@ -408,7 +408,7 @@ class XMLSchemaConverter(NamespaceMapper):
                 else:
                     if not isinstance(result, MutableSequence) or not result:
                         result_dict[name] = self.list_class((result, value))
-                    elif isinstance(result[0], MutableSequence) or \
+                    elif isinstance(result[0], MutableSequence) or result[0] is None or \
                             not isinstance(value, MutableSequence):
                         result.append(value)
                     else:
@@ -482,7 +482,7 @@ class XMLSchemaConverter(NamespaceMapper):
                 ns_name = self.unmap_qname(name)
                 xsd_child = xsd_element.match_child(ns_name)
                 if xsd_child is not None:
-                    if xsd_child.type and xsd_child.type.is_list():
+                    if xsd_child.type and xsd_child.type.is_list() and None not in value:
                         content.append((ns_name, value))
                     else:
                         content.extend((ns_name, item) for item in value)
